@@ -23,4 +23,6 @@ CONSTANTS
   AlgStride = 1
   CbStride = 1
   ShapeStride = 1
-INVARIANTS TypeOK KeychainMatrixOK ViewMatrixOK NeverGarbage OtherSeedNothing OwnFormatOnly ProofsVerify Determinism NoCollision SwappedProofNothing
+  PairStride = 1601
+  WalPicks = 1
+INVARIANTS TypeOK KeychainMatrixOK ViewMatrixOK NeverGarbage OtherSeedNothing OwnFormatOnly ProofsVerify Determinism NoCollision SwappedProofNothing PaddingIgnored EmitPair
